@@ -27,7 +27,7 @@ ID = "C07"
 LEVEL = "exploration"
 SHARDS = 32
 RUNS = {"quick": SHARDS + 200, "thorough": SHARDS + 6000}
-WALL_CAP = {"quick": 280, "thorough": 3000}
+WALL_CAP = {"quick": 280, "thorough": 1500}
 EXHAUSTIVE_KEY = None
 RULE = (
     f"runs 0..{SHARDS - 1}: shards of the complete successor chain of one date (all 51^2+51^3 = 135252 "
